@@ -30,6 +30,9 @@ from ..poly import Poly
 from ..traceutil import statements, words, chain, decisions_text, short
 from ..values import *
 
+# applications that discard decimal places of a value before it is rendered
+PRE_ROUNDING = ("round(", "int(", "floor(", "ceil(", "trunc(")
+
 # renderers of numpy that are known not to give fixed-point notation at a number of decimal places
 KNOWN_NOT_FIXED_POINT = ("numpy.format_float_scientific",)
 
@@ -66,6 +69,13 @@ def analyse(W, name, f, ctx, desc, path):
         for letter, value, status, how in words(s, path.facts, letters=()):
             if how == "raw" and isinstance(value, (Num,)):
                 viol(f"raw-number:{letter}", f"the {letter} word interpolates a number without number(): {short(value)}")
+            if isinstance(value, Num):
+                # faithful to the configured precision: the value handed to number() is the caller's quantity, not a
+                # rounding or truncation of it made beforehand (number() does the only rounding, at the configured places)
+                pre = sorted(sym for sym in value.p.symbols() if sym.startswith(PRE_ROUNDING) and re.search(r"\b(arg\.|kw\[)", sym))
+                if pre:
+                    viol(f"pre-rounded:{letter}", f"the {letter} word renders {pre[0]}: the caller's value is rounded / truncated before number() "
+                         "renders it at the configured number of decimal places")
         for i, p in enumerate(parts):
             if isinstance(p, StrOf):
                 v = p.value
